@@ -191,7 +191,7 @@ func readTree(dir string) map[string][]byte {
 }
 
 // writeTree materialises an in-memory tree in a fresh directory.
-func writeTree(dir string, files map[string][]byte) error {
+func writeFileTree(dir string, files map[string][]byte) error {
 	for rel, b := range files {
 		p := filepath.Join(dir, filepath.FromSlash(rel))
 		if err := os.MkdirAll(filepath.Dir(p), 0o755); err != nil {
@@ -284,7 +284,7 @@ func fragmentIDs(b []byte, codec retriever.CompressionCodec, phase retriever.Pha
 }
 
 // errClass maps a retriever error to a small stable enum.
-func errClass(err error) string {
+func retrErrClass(err error) string {
 	if err == nil {
 		return "ok"
 	}
